@@ -725,7 +725,7 @@ func TestC13Magnet(t *testing.T) {
 	logger.Disable()
 	rep := core.NewReport("C13", "magnet", "exploration")
 	rep.Rule = "magnet text: (1) Magnet{2 hashes x 17 names needing escapes x (0 tiers + every vector of 1-3 tiers of sizes 1-3 over 9 URLs needing escapes, plus a URL shared by two tiers) x every ordered selection of 0-3 peers (IPv4, IPv6 literal, host name)}.String() -> New: info-hash, name, multiset of tiers (each a set), peers preserved, New(String(.)) idempotent; " +
-		"(2) links written by the harness's own encoder: hash as hex/base32 upper/lower x names x tier vectors x 4 ways of spelling tiers (tr, tr.N, tr.N with gaps reversed and xt last, mixed) -> New -> String -> New; (3) 45 malformed links: error, never a panic. " +
+		"(2) links written by the harness's own encoder: hash as hex/base32 upper/lower x names x tier vectors x 4 ways of spelling tiers (tr, tr.N, tr.N with gaps reversed and xt last, mixed) -> New -> String -> New; (3) a list of malformed links (short/long hash, bad hex, bad base32, missing/bad xt, v2-only, not a magnet, duplicated xt, odd parameters): error where the link is unusable, never a panic. " +
 		"InfoDownloader driven as torrent_metadataextension.go does: metadata of 1-3 blocks (9 sizes) x request queue {1,2,50} x every sequence of <=4 (thorough: <=5) events over {block index 0..n-1, n, 2^32-1} x {right, right-size garbage, 1 short, 1 long (thorough: empty, full 16 KiB)}, pruned when the peer is dropped or Done, each followed by an honest continuation. distinct = distinct magnet texts + event sequences."
 	rep.Assumptions = []string{
 		"for links not produced by String() only info-hash, name, peers and the set of tracker URLs are judged, plus the grouping String() itself uses (tr = own tier, tr.N = tier N)",
